@@ -1,4 +1,4 @@
-import MitmVerif.Model.C36
+import MitmVerif.Model.C36_Gate
 import Driver.Proto
 open MitmVerif Driver MitmVerif.C36
 
@@ -82,12 +82,39 @@ def showRes : Except Err (Value × Bytes) → String
 def showEnd : End → String
   | .clean => "clean" | .flowRead => "flowRead" | .escapes => "escapes"
 
-/-- outcomes of from_state per record index: o = ok, v = ValueError, x = other Exception, n = non-Exception -/
+/-- observed outcome of `Flow.from_state(compat.migrate_flow(·))` per dict record, by stage:
+    o = ok; V / X = ValueError / other Exception raised before any field is used (version check of the first
+    migrate_flow iteration, `Flow.__types[state["type"]]`); w / y = the same classes after a converter ran;
+    v / x = the same classes from the flow class' set_state; n = non-Exception -/
 def outcome (cs : List Char) (i : Nat) (_ : Value) : Except StateExc Nat :=
   match cs[i]? with
   | some 'o' => .ok i
   | some 'v' => .error .valueError
+  | some 'V' => .error .valueError
+  | some 'w' => .error .valueError
   | some 'x' => .error .exception
+  | some 'X' => .error .exception
+  | some 'y' => .error .exception
   | _ => .error .nonException
+
+/-- what the model says about record `i`: its own prediction where the gate decides, the observed class where the
+    remaining parameter decides ('!' if the observation contradicts the gate's pass / defer) -/
+def gateChar (cs : List Char) (i : Nat) (v : Value) : Char :=
+  let c := (cs[i]?).getD '?'
+  match gate v with
+  | .rejectV => 'V'
+  | .rejectX => 'X'
+  | .pass _ => if c = 'V' || c = 'X' || c = 'w' || c = 'y' then '!' else c
+  | .defer => if c = 'V' || c = 'X' || c = 'v' || c = 'x' then '!' else c
+  | .deferShape => c
+
+/-- the classes of the dict records the reader gets to see, in order (stops like the reader stops) -/
+partial def gateTrace (m d : Nat) (cs : List Char) (i : Nat) (s : Bytes) : List Char :=
+  match load m d s with
+  | .error _ => []
+  | .ok (v, rest) =>
+    if !isDict v then [] else
+    let c := gateChar cs i v
+    if c = 'o' then c :: gateTrace m d cs (i + 1) rest else [c]
 
 end C36Wire
